@@ -4,8 +4,8 @@ from vv.registry import PROPS, COMMON_ASSUME, rc
 harness("h_c09", ["harness/h_c09.cc"], libs=("xtp",))
 
 PROPS["C09"] = dict(
-    parts=[rc("h_c09", quick=dict(cases=3000, procs=8, budget_s=900),
-              thorough=dict(cases=200000, procs=16, args=["--large"], budget_s=3000))],
+    parts=[rc("h_c09", quick=dict(cases=8000, procs=8, budget_s=900),
+              thorough=dict(cases=120000, procs=16, args=["--large"], budget_s=3000))],
     rule=("matrices are built from an explicit recipe in the case (diagonal, triplets, bands, rank-one terms, Householder reflectors): "
           "f1_spectral = Q diag(lambda) Q^T with clustered / exactly degenerate / negative / log-spread spectra; f2_diagdom = separated diagonal "
           "(gap>=1) + symmetric noise with row sums <= 0.05 (must report Success with default search space, iter_max 50); f3_banded = banded/sparse "
@@ -13,12 +13,17 @@ PROPS["C09"] = dict(
           "[[A,B],[-B,-A]] with A+-B strictly diagonally dominant (SPD); large = n 150..400 (thorough). Options: DPR|OLSEN x min|safe|max x 4 "
           "tolerances x search space {default, neigen+1..2neigen, 2..10 neigen, 10 neigen} x iter_max 5..100 x dense|MatrixFreeOperator. "
           "Oracle Eigen::SelfAdjointEigenSolver. non-trivial = a restart certainly happened (2*neigen + iterations > search space limit) or the "
-          "lowest neigen+1 eigenvalues contain a gap < 1e-3 or a degeneracy."),
+          "lowest neigen+1 eigenvalues contain a gap < 1e-3 or a degeneracy (f2_diagdom: restart or >= 3 iterations)."),
     assumptions=COMMON_ASSUME + [
         "solve() is called like BSE does (size_initial_guess left at its default 2*neigen, neigen <= n/4)",
-        "'Linear dependencies in Gram-Schmidt' (documented throw) and exceptions of the HAM small generalized eigenproblem are discards",
-        "'success => lowest roots' is asserted with Kahan's residual bound; on exactly reducible matrices (known finding "
-        "Davidson/hidden-root-reducible) the claim is skipped and matrices of the main families are made irreducible with distinct diagonal",
+        "an exception from solve() returns nothing and claims no status: counted as class 'throw:...' (a violation only in f2_diagdom, "
+        "where success is claimed); an abort of the solver (it runs in a forked child) is always a failure",
+        "'success => lowest roots' is asserted to the accuracy the user selected: |lambda_i - mu_i| <= sqrt(2 neigen) tol / sigma_min(V) "
+        "(Kahan's residual bound at the permitted residual); strictly enforced in f2_diagdom and the separated HAM class",
+        "confirmed findings, when listed as known: Davidson/gramschmidt-dependency-undetected and Davidson/olsen-nan-exact-diagonal are "
+        "avoided by construction where possible (basis never outgrows n, distinct diagonal, dense coupling for OLSEN), "
+        "Davidson/hidden-root-reducible / Davidson/premature-success-unseen-root / remaining Gram-Schmidt cases are recognised after the run "
+        "by a recorded rerun (basis size and orthonormality over time, Ritz values on everything the solver saw) and counted as excluded-known",
         "'diagonally dominant matrices converge' is checked on one calibrated class (f2_diagdom), not characterised",
     ],
 )
